@@ -180,6 +180,7 @@ spec fn same_layout(a: &YamlSerializer, b: &YamlSerializer) -> bool {
     && a.pending_inline_comment == b.pending_inline_comment && a.pending_space_after_colon == b.pending_space_after_colon
     && a.at_line_start == b.at_line_start
 }
+spec fn same_pos(a: &YamlSerializer, b: &YamlSerializer) -> bool { same_layout(a, b) && same_block_cfg(a, b) && a.pending_inline_map == b.pending_inline_map }
 spec fn same_block_cfg(a: &YamlSerializer, b: &YamlSerializer) -> bool {
     a.indent_step == b.indent_step && a.folded_wrap_col == b.folded_wrap_col && a.pending_str_from_auto == b.pending_str_from_auto
     && a.pending_anchor_id == b.pending_anchor_id && a.in_flow == b.in_flow && a.quote_all == b.quote_all && a.yaml_12 == b.yaml_12
@@ -234,4 +235,18 @@ impl<'a> YamlSerializer<'a> {
         self.serialize_str_select(v);
         self.serialize_str_block(v, Ghost(pcol))
     }
+}
+
+// ---- R38 wrappers: the methods write_quoted / write_single_quoted use `self` only through `self.out`; their real bodies are
+// verified as functions of the sink (`*__out`), and these two-line methods give callers the same contract plus the frame ----
+impl<'a> YamlSerializer<'a> {
+    fn write_quoted(&mut self, s: &str) -> (r: Result<(), SerError>)
+        ensures r is Ok ==> final(self).out.text() =~= old(self).out.text().push('"') + dq_body(s@) + seq!['"'],
+                same_pos(final(self), old(self)),
+    { Self::write_quoted__out(self.out, s) }
+
+    fn write_single_quoted(&mut self, s: &str) -> (r: Result<(), SerError>)
+        ensures r is Ok ==> final(self).out.text() =~= old(self).out.text().push('\'') + sq_body(s@) + seq!['\''],
+                same_pos(final(self), old(self)),
+    { Self::write_single_quoted__out(self.out, s) }
 }
